@@ -428,7 +428,10 @@ class SymNP:
             if axis != 0:
                 raise Unsupported("stack(meshgrid) along axis != 0")
             return MeshStub(arrays.ranges, stacked=True)
-        return _np.stack(arrays, axis=axis, **kw)
+        return A.wrap(_np.stack(arrays, axis=axis, **kw))
+
+    def concatenate(self, arrays, axis=0, **kw):
+        return A.wrap(_np.concatenate(arrays, axis=axis, **kw))
 
     def pad(self, x, pad_width, mode="constant", **kw):
         import operator
